@@ -152,7 +152,7 @@ func checkC05(r *Report) {
 	p := loadResolve("", true)
 	e := runEffect(p)
 	effectTrusted(r)
-	r.Explain = "Ownership/effect analysis on go/ssa over everything reachable (VTA call graph) from the three Resolve methods. C05.a OWN: every value obtained from a resolve.Client interface call (and from a resolver-lifetime lru cache) is tracked with direct/deep origin facts through fields, slices, maps, closures, local cells (flow- and field-sensitive) and function summaries; every primitive write site (store, map update, append, copy, sort.*/slices.* mutators) whose region type could be client or cache memory must never see such an origin. C05.b READ-PURE: the resolve.Client methods of each implementing type write nothing reachable from their receiver (one whitelisted field, lock-guarded). C05.c RESOLVER-STATE: Resolve writes no memory reachable from its resolver except inside the lru cache package, and stores to no package-level variable. This decides the structural clause 'resolution never mutates what the client handed out or resolver-lifetime state'; it does not decide equality of graphs."
+	r.Explain = "Ownership/effect analysis on go/ssa over everything reachable (VTA call graph) from the three Resolve methods. C05.a OWN: every value obtained from a resolve.Client interface call (and from a resolver-lifetime lru cache) is tracked with direct/deep origin facts through fields, slices, maps, closures, local cells (flow- and field-sensitive) and function summaries; every primitive write site (store, map update, append, copy, sort.*/slices.* mutators) whose region type could be client or cache memory must never see such an origin. C05.b READ-PURE: the resolve.Client methods of each implementing type write nothing reachable from their receiver (one whitelisted field, lock-guarded). C05.c RESOLVER-STATE: no field of a resolver is written after construction and Resolve stores to no package-level variable. C05.d CACHE-PURE: a function that adds to a resolver-lifetime lru cache reads (transitively, closures included) no per-call field of the struct that holds the cache, so a cached value is a function of its key and the client only and cannot carry one resolution's root into the next. This decides the structural clause 'resolution never mutates what the client handed out or resolver-lifetime state'; it does not decide equality of graphs."
 	r.Assume = []string{"out-of-scope callees (std, grpc, protobuf) do not write memory reachable from their arguments unless modelled", "values returned by resolve.Client implementations alias client state (worst case)"}
 	roots := resolveRoots(p)
 	r.floor("C05.a/OWN", "Resolve methods of resolve.Resolver implementations", len(roots), 3)
@@ -174,6 +174,8 @@ func checkC05(r *Report) {
 
 	// C05.c
 	resolverStateRule(r, p, e, roots)
+	// C05.d
+	cachePureRule(r, p, e)
 	r.Stats["functions_in_scope"] = len(p.Funcs)
 	r.Stats["functions_reachable_from_Resolve"] = len(reach)
 	r.Stats["summary_passes"] = e.passes
@@ -321,5 +323,123 @@ func sortedVals(m map[*types.Var]string) []string {
 		out = append(out, v)
 	}
 	sort.Strings(out)
+	return out
+}
+
+// cachePureRule (C05.d): functions that populate a resolver-lifetime cache read
+// no per-call state of the struct holding the cache.
+func cachePureRule(r *Report, p *Prog, e *Effect) {
+	rule := "C05.d/CACHE-PURE"
+	isCachePtr := func(t types.Type) bool { return strings.Contains(t.String(), "internal/lru.Cache[") }
+	n := 0
+	for _, f := range p.Funcs {
+		if f.Synthetic != "" {
+			continue
+		}
+		for _, b := range f.Blocks {
+			for _, in := range b.Instrs {
+				call, ok := in.(*ssa.Call)
+				if !ok {
+					continue
+				}
+				sc := call.Common().StaticCallee()
+				if sc == nil || !isLruMethod(sc, "Add") {
+					continue
+				}
+				// the cache is a field of some struct: find it
+				fv := nearestField(call.Common().Args[0])
+				if fv == nil {
+					continue
+				}
+				var owner *types.Struct
+				ownerName := ""
+				for _, pk := range p.Pkgs {
+					sc := pk.Types.Scope()
+					for _, nm := range sc.Names() {
+						if tn, ok := sc.Lookup(nm).(*types.TypeName); ok {
+							if st, ok := tn.Type().Underlying().(*types.Struct); ok {
+								for i := 0; i < st.NumFields(); i++ {
+									if st.Field(i) == fv {
+										owner, ownerName = st, short(pk.PkgPath)+"."+nm
+									}
+								}
+							}
+						}
+					}
+				}
+				if owner == nil {
+					continue
+				}
+				n++
+				key := fnKey(f) + ": fills " + ownerName + "." + fv.Name()
+				var perCall []string
+				reads := fieldsReadBefore(e, call)
+				for i := 0; i < owner.NumFields(); i++ {
+					fld := owner.Field(i)
+					if isCachePtr(fld.Type()) || isClientIface(fld.Type()) {
+						continue
+					}
+					if reads[fld] {
+						perCall = append(perCall, fld.Name())
+					}
+				}
+				sort.Strings(perCall)
+				if len(perCall) > 0 {
+					r.bad(rule, key, p.pos(call.Pos()), "the function that computes and caches this value reads per-call state ("+ownerName+"."+strings.Join(perCall, ", ")+"): the cache outlives the call, so a later resolution on the same resolver can be served a value computed for another root")
+				} else {
+					r.ok(rule, key, p.pos(call.Pos()), "the call closure reads only the client and cache fields of "+ownerName)
+				}
+			}
+		}
+	}
+	r.floor(rule, "call sites that add to a resolver-lifetime cache", n, 3)
+}
+
+// fieldsReadBefore collects the struct fields read (directly, through callees
+// or through closures created) in the blocks of call's function from which the
+// call is reachable: the code that can contribute to the values it is given.
+func fieldsReadBefore(e *Effect, call *ssa.Call) map[*types.Var]bool {
+	f := call.Parent()
+	reach := map[*ssa.BasicBlock]bool{}
+	stack := []*ssa.BasicBlock{call.Block()}
+	for len(stack) > 0 {
+		b := stack[len(stack)-1]
+		stack = stack[:len(stack)-1]
+		if reach[b] {
+			continue
+		}
+		reach[b] = true
+		stack = append(stack, b.Preds...)
+	}
+	out := map[*types.Var]bool{}
+	addSum := func(g *ssa.Function) {
+		if s := e.sums[g]; s != nil {
+			for fv := range s.fields {
+				out[fv] = true
+			}
+		}
+	}
+	for _, b := range f.Blocks {
+		if !reach[b] {
+			continue
+		}
+		for _, in := range b.Instrs {
+			switch x := in.(type) {
+			case *ssa.FieldAddr:
+				out[x.X.Type().Underlying().(*types.Pointer).Elem().Underlying().(*types.Struct).Field(x.Field)] = true
+			case *ssa.Field:
+				out[x.X.Type().Underlying().(*types.Struct).Field(x.Field)] = true
+			case *ssa.MakeClosure:
+				addSum(x.Fn.(*ssa.Function))
+			case ssa.CallInstruction:
+				if sc := x.Common().StaticCallee(); sc != nil {
+					addSum(sc)
+				}
+				for _, t := range e.callees[x] {
+					addSum(t)
+				}
+			}
+		}
+	}
 	return out
 }
